@@ -15,20 +15,21 @@ variable {β : Type} [Field β] [LinearOrder β] [IsStrictOrderedRing β]
 /-- hyper_le_one: a hypergeometric probability is at most one, for every population size. -/
 theorem hyper_le_one (N K n k : Nat) (hK : K ≤ N) (hn : n ≤ N) :
     (0 : β) ≤ hyper N K n k ∧ (hyper N K n k : β) ≤ 1 := by
-  sorry
+  exact ⟨Sfs.hyper_nonneg N K n k, Sfs.hyper_le_one N K n k hK hn⟩
 
 /-- projectValue_le_one: so is every coefficient of the projection operator (a product of such probabilities). -/
 theorem projectValue_le_one (pf from_ pt to_ : List Nat) (h : ∀ j, j < pf.length → from_.getD j 0 ≤ pf.getD j 0 ∧ pt.getD j 0 ≤ pf.getD j 0) :
     (0 : β) ≤ projectValue pf from_ pt to_ ∧ (projectValue pf from_ pt to_ : β) ≤ 1 := by
-  sorry
+  exact ⟨Sfs.projectValue_nonneg pf from_ pt to_, Sfs.projectValue_le_one pf from_ pt to_ h⟩
 
 /-- project_le_mass: every entry of the projection of a non-negative spectrum is at most the total mass of the input. -/
 theorem project_le_mass (a b : Arr β) (toShape : List Nat) (hlen : a.data.length = size a.shape)
     (h : project a toShape = .ok b) (hnn : ∀ x ∈ a.data, 0 ≤ x) : ∀ y ∈ b.data, y ≤ a.data.sum := by
-  sorry
+  exact Sfs.project_le_sum a b toShape hlen h hnn
 
 /-! non-vacuity: 1200 chromosomes to 600 (binomials far beyond the binary64 range), exact value in [0, 1] -/
 example : (0 : Rat) ≤ hyper 1200 600 600 300 ∧ (hyper 1200 600 600 300 : Rat) ≤ 1 ∧ (0 : Rat) < hyper 1200 600 600 300 := by
-  sorry
+  have h := hyper_le_one (β := Rat) 1200 600 600 300 (by omega) (by omega)
+  exact ⟨h.1, h.2, Sfs.hyper_pos 1200 600 600 300 (by omega) (by omega) (by omega) (by omega)⟩
 
 end Sfs.C03
